@@ -48,7 +48,7 @@ def gen_case(rng, ids):
     expected = rng.choice(EXPECTED)
     n = rng.choice([0, 1, 2, 3, 5, 12, 30])
     msgs = [(rng.choice(ids + [300, 65535]), rng.randbytes(rng.choice([0, 1, 2, 7, 130, 300]))) for _ in range(n)]
-    mode = rng.choice(["one", "bytes", "frames", "multi", "multi", "multi", "headers"])
+    mode = rng.choice(["one", "bytes", "frames", "multi", "multi", "multi", "headers", "straddle", "straddle"])
     return name, expected, msgs, mode
 
 
@@ -57,7 +57,7 @@ def run(rep, tier, seed):
     asyncio.set_event_loop(asyncio.new_event_loop())
     rep.coverage["rule"] = (
         "fresh handshakes (new ephemeral keys each) x announced names {absent, empty, ascii, utf-8, long} x expected-name settings x 0-30 messages "
-        "(ids incl. 300 and 65535, payloads 0-300 bytes) x chunkings {one chunk, 1-byte chunks, frame boundaries, random multi-cut, dense cuts inside a header}; "
+        "(ids incl. 300 and 65535, payloads 0-300 bytes) x chunkings {one chunk, 1-byte chunks, frame boundaries, random multi-cut, dense cuts inside a header, every frame split with the next piece ending 0-3 bytes into the following frame}; "
         "thorough adds every single cut position of 40 sessions; non-trivial = some frame is split across calls or the name is rejected; distinct by (name, expected, message sizes, cuts)")
     proofs_ok = rep.proofs(VFILE)
     ok, log = common.build_driver()
@@ -96,6 +96,19 @@ def run(rep, tier, seed):
                 for f in st.frames[:-1]:
                     off += len(f["real"])
                     pts.append(off)
+            elif mode == "straddle":
+                # a frame that arrives in two pieces, the second piece ending a few bytes into the next frame (or exactly at its end),
+                # over the whole stream: cut inside every frame and shortly after every frame boundary
+                pts, off = [], 0
+                for f in st.frames:
+                    n = len(f["real"])
+                    if n > 1:
+                        pts.append(off + rng.randrange(1, n))
+                    off += n
+                    d = rng.choice([0, 1, 2, 3])
+                    if off + d <= total:
+                        pts.append(off + d)
+                pts = sorted(set(pts))
             elif mode == "headers":
                 c = rng.randrange(0, total + 1)
                 pts = [p for p in range(c - 4, c + 5) if 0 <= p <= total]
